@@ -98,3 +98,8 @@ package metrics
 //@                                                               result.staticMetricLabelValues[j] == staticMetrics[G16iterNames[3 + j]])
 //@   ensures [fixed-names] G16setupNames[0] == "test" && G16setupNames[1] == "result" && G16iterNames[0] == "test" && G16iterNames[1] == "stage" && G16iterNames[2] == "result"
 //@   ensures [enabled] result != nil && result.IterationMetricsEnabled == iterationMetricsEnabled && result.Registry == registry
+//@
+//@ func (*Metrics).Reset
+//@   props C16 C06 C05
+//@   requires metrics != nil && metrics.Iteration != nil && metrics.Setup != nil
+//@   modifies nothing
